@@ -2,7 +2,7 @@
    Only statements, each closed by `exact`, each followed by Print Assumptions. *)
 From Coq Require Import List NArith ZArith Bool.
 From Vy Require Import Model.Base Model.Lexer Model.Parser Model.Transpile Model.PyTree Model.PyShape
-  Gen.Elements Gen.TemplateShapes Proofs.ParserFacts Proofs.C02Proofs.
+  Gen.Elements Gen.TemplateShapes Proofs.ParserFacts Proofs.C02Proofs Proofs.ParseInvariants.
 Import ListNotations.
 
 (* every element and modifier template of the regenerated tables is, on its own, a
@@ -33,6 +33,15 @@ Print Assumptions C02_without_early_exits.
 Theorem C02_side_condition_only_about_exits : forall s il idf, no_jumps s = true -> ctx_ok il idf s = true.
 Proof. exact no_jumps_ctx_ok. Qed.
 Print Assumptions C02_side_condition_only_about_exits.
+
+(* every program TEXT: what the parser returns always satisfies the side condition, except
+   for an early exit written in a while condition (the recorded defect class, `wconds`) *)
+Theorem C02_programs : forall src l,
+  parse_source src = Ok l -> forallb wconds l = true -> py_wf (shape_program l) = true.
+Proof.
+  exact (fun src l H W => program_py_wf l (parsed_ctx_ok (Lexer.tokenise src) l H W)).
+Qed.
+Print Assumptions C02_programs.
 
 (* premises are satisfiable and the known bad position is really excluded:
    3(n2=[X|x]) and (⟨X⟩) are fine, {X|1} is not *)
